@@ -15,6 +15,7 @@ Import ListNotations.
 Require Import Fggs.Model.Axis Fggs.Model.AxisCheck Fggs.Model.AxisEnum Fggs.Model.XVal Fggs.Model.PTensor Fggs.Model.PTensorCheck Fggs.Model.PTEqual.
 Require Import Fggs.Proofs.PTensor_dense Fggs.Proofs.PTEqual_count Fggs.Proofs.PTEqual_sem Fggs.Proofs.PTEqual_freshen.
 Require Import Fggs.Proofs.PTEqual_main Fggs.Proofs.PTEqual_multi Fggs.Proofs.PTEqual_bounded Fggs.Proofs.PTEqual_examples Fggs.Proofs.PTEqual_dense.
+Require Import Fggs.Proofs.Axis_typed Fggs.Proofs.Axis_total Fggs.Proofs.PTEqual_typed Fggs.Proofs.PTEqual_typed_main Fggs.Proofs.PTEqual_typed_ex Fggs.Proofs.PTEqual_typed_total.
 Local Open Scope nat_scope.
 
 (** * supports and the counting argument (any carrier, any comparison) *)
@@ -274,6 +275,98 @@ Theorem C13_allclose_correct_small_shapes : forall rtol atol en shp es fs (t u :
                 forall idx, in_bounds (shape xval t) idx -> xisclose rtol atol en (denote xval t idx) (denote xval u idx) = true).
 Proof. exact allclose_correct_small_shapes. Qed.
 Print Assumptions C13_allclose_correct_small_shapes.
+
+(** * UNBOUNDED: the premise follows from typing (Proofs/PTEqual_typed.v, PTEqual_typed_main.v)
+
+    [typed_pair V G next pss t u]: both operands well formed ([wf]), one typing context [G] below
+    [next] for the physical axes of both, both patterns of the same types [pss] dimension by
+    dimension ([tys], Proofs/Axis_typed.v), all primes good ([gprimes]: atoms >= 2, sum types >= 2).
+    Sharing of physical axes between the operands is allowed ([equal] freshens [other] then).
+    The theorems say "whenever the model answers [Ok b]": the only other outcome on typed pairs is
+    [Fail OutOfFuel], the fuel being an artefact of the model (C06_unify_fuel_monotone). *)
+
+(** for operands over disjoint physical axes, the two views built with [stride] from the unifier
+    enumerate exactly the coincidences of the two patterns, each once *)
+Theorem C13_overlap_typed : forall (V : Type) (t u : ptensor V), wf V t -> wf V u ->
+  forall G next pss, ctx_good G -> ctx_below G next -> tys G (vaxes t) pss -> tys G (vaxes u) pss -> Forall gprimes pss ->
+  (forall k, In k (map fst (paxes t)) -> ~ In k (map fst (paxes u))) ->
+  forall cs, overlap_cs V t u next = Ok cs -> overlap_ok V t u cs.
+Proof. exact overlap_typed_ok. Qed.
+Print Assumptions C13_overlap_typed.
+
+(** the same for [t] and the possibly freshened [other] of a call [t.equal(u)] *)
+Theorem C13_freshened_overlap_typed : forall (V : Type) (t u : ptensor V) G next pss,
+  typed_pair V G next pss t u ->
+  forall cs, overlap_cs V t (fst (freshened V next t u)) (snd (freshened V next t u)) = Ok cs ->
+             overlap_ok V t (fst (freshened V next t u)) cs.
+Proof. exact freshened_overlap_ok. Qed.
+Print Assumptions C13_freshened_overlap_typed.
+
+(** premise-free: [equal] decides equality of the denoted dense tensors on every typed pair *)
+Theorem C13_equal_correct_typed : forall G next pss (t u : pt) b,
+  typed_pair xval G next pss t u -> equal_model next t u = Ok b ->
+  (b = true <-> shape xval t = shape xval u /\
+                forall idx, in_bounds (shape xval t) idx -> denote xval t idx = denote xval u idx /\ denote xval t idx <> XNaN).
+Proof. exact equal_correct_typed. Qed.
+Print Assumptions C13_equal_correct_typed.
+
+Theorem C13_allclose_correct_typed : forall rtol atol en G next pss (t u : pt) b,
+  typed_pair xval G next pss t u -> allclose_model rtol atol en next t u = Ok b ->
+  (b = true <-> shape xval t = shape xval u /\
+                forall idx, in_bounds (shape xval t) idx -> xisclose rtol atol en (denote xval t idx) (denote xval u idx) = true).
+Proof. exact allclose_correct_typed. Qed.
+Print Assumptions C13_allclose_correct_typed.
+
+(** any comparison (the skeleton shared by [equal] and [allclose]) *)
+Theorem C13_compare_correct_typed : forall cmp G next pss (t u : pt) b,
+  typed_pair xval G next pss t u -> compare_model xval cmp next t u = Ok b ->
+  (b = true <-> cellwise cmp t u).
+Proof. exact compare_model_correct_typed. Qed.
+Print Assumptions C13_compare_correct_typed.
+
+Theorem C13_equal_symmetric_typed : forall G next pss (t u : pt) b1 b2,
+  typed_pair xval G next pss t u ->
+  equal_model next t u = Ok b1 -> equal_model next u t = Ok b2 -> b1 = b2.
+Proof. exact equal_symmetric_typed. Qed.
+Print Assumptions C13_equal_symmetric_typed.
+
+Theorem C13_equal_reflexive_typed : forall G next pss (t : pt) b, nan_free t ->
+  typed_pair xval G next pss t t -> equal_model next t t = Ok b -> b = true.
+Proof. exact equal_reflexive_typed. Qed.
+Print Assumptions C13_equal_reflexive_typed.
+
+(** the model does not fail on typed pairs -- [stride] / [fv] terminate within their fuel, every key
+    of the accumulated stride dict is a free axis (no KeyError in [project]), the free axes of the
+    second view are [subaxes] (the [__debug__] ValueError of [project] cannot fire) -- when the fuel
+    it gives to [unify] is at least the type-derived bound.
+    Full statement (open, notes/UNIFY.md): the same without the hypothesis on [unify_fuel]. *)
+Theorem C13_model_total_typed_partial : forall (V : Type) (t u : ptensor V), wf V t -> wf V u ->
+  forall G next pss, ctx_good G -> ctx_below G next -> tys G (vaxes t) pss -> tys G (vaxes u) pss -> Forall gprimes pss ->
+  Forall (fun ps => tyfuel ps <= unify_fuel (vaxes t) (vaxes u)) pss ->
+  exists ov, overlap_model V next t u = Ok ov.
+Proof. exact overlap_model_total. Qed.
+Print Assumptions C13_model_total_typed_partial.
+
+(** hence the executable premise of C13_equal_correct / C13_allclose_correct holds on every typed pair *)
+Theorem C13_compare_pre_typed_partial : forall G next pss (t u : pt),
+  typed_pair xval G next pss t u -> wf_b t = true -> wf_b u = true ->
+  Forall (fun ps => tyfuel ps <= unify_fuel (vaxes t) (vaxes u)) pss ->
+  compare_pre_b next t u = true.
+Proof. exact compare_pre_typed. Qed.
+Print Assumptions C13_compare_pre_typed_partial.
+
+Theorem C13_compare_decides_typed_partial : forall cmp G next pss (t u : pt),
+  typed_pair xval G next pss t u -> wf_b t = true -> wf_b u = true ->
+  Forall (fun ps => tyfuel ps <= unify_fuel (vaxes t) (vaxes u)) pss ->
+  exists b, compare_model xval cmp next t u = Ok b /\ (b = true <-> cellwise cmp t u).
+Proof. exact compare_decides_typed. Qed.
+Print Assumptions C13_compare_decides_typed_partial.
+
+(** the hypothesis is decidable given the context (executable, sound) *)
+Theorem C13_typed_pair_checker_sound : forall cl next pss (t u : pt),
+  typed_pair_tb cl next pss t u = true -> typed_pair xval (ctx_of_list cl) next pss t u.
+Proof. exact typed_pair_tb_sound. Qed.
+Print Assumptions C13_typed_pair_checker_sound.
 
 (** * the premise cannot be dropped: operands typed by different sum decompositions of a dimension
     (the library warns "index type mismatch"): [equal] answers True on different dense tensors *)
